@@ -84,6 +84,8 @@ def sizes(ctx):
 def correspond(ctx):
   K = _k1()
   nh, nb = sizes(ctx)
+  for what in K.check_glue_pins():
+    ctx.broken('pin: useractions.doModifyColumn (K1 glue, not visible in event traces): ' + what, '')
   res = K.traced_run(ctx, nh, nb)
   ctx._k1 = res
   ctx.log('traced run: %d traces, record %.1fs, total %.1fs' % (len(res['codes']), res['wall_record_s'], res['wall_s']))
